@@ -18,7 +18,7 @@ Pats == OnePat \cup TwoPat
 Defects(k) == {d \in SUBSET DefectClasses : Cardinality(d) <= k}
 
 Scenario(p, d, f, o) == [pats |-> p, defects |-> d, quiet |-> f.quiet, stub |-> f.stub,
-                         ignoreP |-> f.ignoreP, ignoreS |-> f.ignoreS, outpre |-> o]
+                         ignoreP |-> f.ignoreP, ignoreS |-> f.ignoreS, outpre |-> o, free |-> FALSE]
 
 (* not-gofmt-able function arguments in --stub mode are outside the documented input     *)
 (* contract (DESIGN section 9, #13): not enumerated.                                     *)
